@@ -135,6 +135,9 @@ class TreeChecker:
         name = type(ins).__name__
         if name.endswith("Measurement") or name.endswith("PostSelectPhotons"):
             self.pre_snapshots[(idx, outcome)] = _snapshot(state)
+        if name in ("HomodyneMeasurement", "HeterodyneMeasurement", "GeneraldyneMeasurement") and type(state).__name__ == "GaussianState":
+            self.gauss_pre = (idx, np.array(state.xpxp_mean_vector, dtype=float), np.array(state.xpxp_covariance_matrix, dtype=float),
+                              float(state._config.hbar), int(state.d))
 
     def on_step_post(self, run, idx, ins, state, shots, sub, exc):
         if run.depth != 0 or exc is not None or sub is None:
@@ -162,6 +165,10 @@ class TreeChecker:
                 total += f
             if total != 1:
                 ctx.viol("children-do-not-add-up", "instruction %d (%s): child frequencies sum to %s (budget %d shots) instead of 1" % (idx, name, total, shots), self.case({"index": idx}))
+        gp = getattr(self, "gauss_pre", None)
+        if gp is not None and gp[0] == idx and name in ("HomodyneMeasurement", "HeterodyneMeasurement", "GeneraldyneMeasurement"):
+            self.gauss_pre = None
+            _check_gaussian_conditional_states(ctx, self, idx, ins, gp, sub)
         # states are evolved in place by later instructions: snapshot the post-measurement states now
         self.measurements.append((idx, outcome, self.pre_snapshots.get((idx, outcome)),
                                   [(tuple(b.outcome), b.frequency, _snapshot(b.state) if b.state is not None else None) for b in sub], tuple(ins.modes)))
@@ -185,6 +192,58 @@ class TreeChecker:
         if sorted(map(repr, ran)) != sorted(map(repr, expected)):
             ctx.viol("condition-applied-to-wrong-branches", "instruction %d (%s when %s): ran on outcomes %s, condition holds on %s" % (
                 idx, idoc["t"], idoc.get("when") or idoc.get("when_call"), sorted(ran)[:6], sorted(expected)[:6]), self.case({"index": idx}))
+
+
+def _check_gaussian_conditional_states(ctx, checker, idx, ins, pre, sub):
+    """Gaussian (general)dyne measurement: every post-measurement state must be the textbook conditional state of the
+    pre-measurement moments recorded at the hook, given *its own* outcome in the order of the instruction's mode tuple:
+        mean' = mean_B + C (S_A + hbar D)^-1 (outcome - mean_A),   cov' = S_B - C (S_A + hbar D)^-1 C^T
+    (A: measured modes in tuple order, B: the others ascending; homodyne: x_phi = cos(phi) x + sin(phi) p first)."""
+    _, mean, cov, hbar, d = pre
+    modes = [int(m) for m in ins.modes]
+    name = type(ins).__name__
+    from piquasso._simulators.connectors import NumpyConnector
+
+    allp = ins._get_all_params(NumpyConnector())
+    D = np.array(allp["detection_covariance"], dtype=float)
+    if name == "HomodyneMeasurement":
+        phi = float(allp["phi"])
+        R = np.eye(2 * d)
+        c, sn = np.cos(phi), np.sin(phi)
+        for m in modes:
+            R[2 * m:2 * m + 2, 2 * m:2 * m + 2] = [[c, sn], [-sn, c]]
+        mean = R @ mean
+        cov = R @ cov @ R.T
+    ia = [j for m in modes for j in (2 * m, 2 * m + 1)]
+    ib = [j for j in range(2 * d) if j not in ia]
+    SA = cov[np.ix_(ia, ia)] + hbar * np.kron(np.eye(len(modes)), D)
+    C = cov[np.ix_(ib, ia)]
+    K = C @ np.linalg.inv(SA)
+    cov_ref = cov[np.ix_(ib, ib)] - K @ C.T
+    for b in sub:
+        if b.state is None:
+            continue
+        out = np.array([float(v) for v in b.outcome], dtype=float)[-len(ia):]
+        mean_ref = mean[ib] + K @ (out - mean[ia])
+        got_m = np.array(b.state.xpxp_mean_vector, dtype=float)
+        got_c = np.array(b.state.xpxp_covariance_matrix, dtype=float)
+        ctx.c["gaussian_conditional_states_checked"] = ctx.c.get("gaussian_conditional_states_checked", 0) + 1
+        if got_m.shape != mean_ref.shape or got_c.shape != cov_ref.shape:
+            ctx.viol("gaussian-conditional-state-shape", "instruction %d (%s on %s): post-measurement state has %d quadratures, %d remain" % (
+                idx, name, modes, got_m.size, mean_ref.size), checker.case({"index": idx}))
+            continue
+        scale = max(1.0, float(np.abs(cov_ref).max()) if cov_ref.size else 1.0, float(np.abs(mean_ref).max()) if mean_ref.size else 1.0,
+                    float(np.abs(K).max() * np.abs(out - mean[ia]).max()) if K.size else 1.0)
+        tol = 1e-8 * scale
+        dm = float(np.abs(got_m - mean_ref).max()) if mean_ref.size else 0.0
+        dc = float(np.abs(got_c - cov_ref).max()) if cov_ref.size else 0.0
+        ctx.c["max_gaussian_conditional_dev_over_tol"] = max(ctx.c.get("max_gaussian_conditional_dev_over_tol", 0.0), max(dm, dc) / tol)
+        if dm > tol:
+            ctx.viol("gaussian-conditional-mean-differs", "instruction %d (%s on modes %s): mean of the post-measurement state differs from the conditional "
+                     "mean given its outcome by %.3e (tol %.1e)" % (idx, name, tuple(modes), dm, tol), checker.case({"index": idx}))
+        if dc > tol:
+            ctx.viol("gaussian-conditional-covariance-differs", "instruction %d (%s on modes %s): covariance of the post-measurement state differs from the "
+                     "conditional covariance by %.3e (tol %.1e)" % (idx, name, tuple(modes), dc, tol), checker.case({"index": idx}))
 
 
 def _snapshot(state):
